@@ -1,4 +1,5 @@
 import DM.Lemmas.DecTotal
+import DM.Lemmas.DecStr
 import DM.Props.C08
 /-!
 # C05 — decoding untrusted input never panics or hangs
@@ -7,10 +8,13 @@ Proved here (for the models, whose every Rust panic site is an explicit outcome)
 * `decode_data_total`: for **every** list of codewords the data decoder returns a value or
   one of its documented errors — no panic outcome, and the loop bound of the model (the
   stand-in for non-termination) is never reached;
+* `decode_str_total`: the same for the string decoder: the ECI span starts recorded while decoding
+  are non-decreasing and never beyond the output, so `eci::convert` never slices out of range, and
+  the per-byte conversion tables (regenerated from the code) cover every byte;
 * `try_from_bits_total`: the bitmap parser reads only positions inside the pixel array.
 
 Not proved (decided by model/implementation correspondence and sweeps, see DESIGN.md):
-`decode_str` (span slicing in `eci::convert`), the Reed–Solomon decoder.
+the Reed–Solomon decoder.
 -/
 namespace DM.Props.C05
 open DM.Model DM.Model.Dec DM.Lemmas
@@ -26,6 +30,25 @@ theorem decode_data_total (data : List Nat) :
     refine Or.inr ⟨e, rfl, ?_, ?_⟩
     · intro s hs; subst hs; exact h _ hd
     · intro hs; subst hs; exact h _ hd
+
+/-- **Totality of `decode_str`** for every slice of codewords (bytes): a value or a documented
+error (charset, not implemented, ECI, unexpected character / end), never a panic or a hang. -/
+theorem decode_str_total (data : List Nat) (hb : ∀ b ∈ data, b < 256) :
+    (∃ v, decodeStr data = .ok v) ∨
+    (∃ e, decodeStr data = .error e ∧ (∀ s, e ≠ .panic s) ∧ e ≠ .fuel) := by
+  have h := decodeStr_good data hb
+  cases hd : decodeStr data with
+  | ok v => exact Or.inl ⟨v, rfl⟩
+  | error e =>
+    refine Or.inr ⟨e, rfl, ?_, ?_⟩
+    · intro s hs; subst hs; exact h _ hd
+    · intro hs; subst hs; exact h _ hd
+
+/-- the ECI span starts handed to `eci::convert` are sorted and inside the output -/
+theorem eci_spans_in_range (data : List Nat) (p : Parts) (hb : ∀ b ∈ data, b < 256)
+    (h : decodeParts data false = .ok p) :
+    p.ecis.Pairwise (fun a b => a.1 ≤ b.1) ∧ ∀ e ∈ p.ecis, e.1 ≤ p.output.length :=
+  (decodeParts_inv data false p hb h).2
 
 /-- the C40/Text lookup tables regenerated from the code have the lengths the decoder indexes
 with and hold 7-bit values only (an upper shift cannot overflow a byte) -/
@@ -52,6 +75,11 @@ theorem try_from_bits_total (s : Sym) (hs : s < numSizes) :
       simp only [fdims, List.mem_cons, List.mem_nil_iff, or_false] at hq
       rcases hq with rfl | rfl | rfl | rfl <;> simp only <;> omega
     · simp at hq
+
+/-- Non-vacuity: a macro symbol with an ECI designator inside (three spans). -/
+example : (match decodeParts [236, 66, 241, 27, 67, 129] false with
+    | .ok p => p.ecis == [(0, 26), (7, 0), (8, 26), (9, 26)] && p.output.length == 11
+    | .error _ => false) = true := by decide +kernel
 
 /-- Non-vacuity: a stream that drives the decoder through C40 with an upper shift. -/
 example : (match decodeData [230, 10, 242, 164, 182, 254, 129, 56] with
